@@ -152,7 +152,7 @@ fn start_hang_watchdog(out: Option<String>, prop: String, secs: u64) {
 
 fn cmd_explore(args: &[String]) {
     let prop = arg(args, "--prop").expect("--prop");
-    start_hang_watchdog(arg(args, "--out"), prop.clone(), 30);
+    start_hang_watchdog(arg(args, "--out"), prop.clone(), 150);
     let thorough = arg(args, "--tier").as_deref() == Some("thorough");
     let shard: usize = arg(args, "--shard").map(|s| s.parse().unwrap()).unwrap_or(0);
     let nshards: usize = arg(args, "--nshards").map(|s| s.parse().unwrap()).unwrap_or(1);
